@@ -30,8 +30,8 @@ RULE = ("two peptides with one cysteine each (cysteine at N-terminal, internal o
         ' Round-3/4 additions: bridged cysteines whose SG (or CB+SG) is missing from the input and is rebuilt by repair (judged on final coordinates under --nodebump).')
 ASSUMPTIONS = ["ground truth distances are recomputed from the 3-decimal coordinates in the file and cases within "
                "1e-6 of the limit are discarded"]
-MIN = {"quick": {"placements": 250, "bridged_pairs_checked": 90, "free_pairs_checked": 90, "near_limit": 100, "real_structures": 6},
-       "thorough": {"placements": 4500, "bridged_pairs_checked": 1800, "free_pairs_checked": 1800, "near_limit": 2000, "real_structures": 500}}
+MIN = {"quick": {"placements": 250, "bridged_pairs_checked": 90, "free_pairs_checked": 90, "near_limit": 100, "real_structures": 6, "rebuilt_structures": 3, "bridges_with_rebuilt_sulfur_checked": 6},
+       "thorough": {"placements": 4500, "bridged_pairs_checked": 1800, "free_pairs_checked": 1800, "near_limit": 2000, "real_structures": 500, "rebuilt_structures": 200, "bridges_with_rebuilt_sulfur_checked": 400}}
 LIMIT = 2.5
 
 
